@@ -1,6 +1,21 @@
 import P2.Props.C03
 import P2.Props.C01
-/- C08 first increment: the verifier's decision logic (lookup terms are part of the vanishing
-polynomial whose identity acceptance forces) and the reference semantics of lookups in evalProg. -/
+import P2.Props.C08b
 #print axioms P2.Props.C03.verify_accept_iff
 #print axioms P2.Props.C01.evalFrom_append
+#print axioms P2.Props.C08.logup_polynomial_form
+#print axioms P2.Props.C08.logup_polynomial_form_weights
+#print axioms P2.Props.C08.logup_polynomial_form_nat
+#print axioms P2.Props.C08.natCast_inj_below_char
+#print axioms P2.Props.C08.logup_nat_false_without_char
+#print axioms P2.Props.C08.logup_rational_form
+#print axioms P2.Props.C08.logup_rational_weights
+#print axioms P2.Props.C08.logup_multiset
+#print axioms P2.Props.C08.logup_multiset_of_evals
+#print axioms P2.Props.C08.logup_soundness
+#print axioms P2.Props.C08.re_polynomial
+#print axioms P2.Props.C08.re_polynomial_soundness
+#print axioms P2.Props.C08.pair_binding
+#print axioms P2.Props.C08.re_polynomial_binds_table
+#print axioms P2.Props.C08.sum_telescope
+#print axioms P2.Props.C08.sldc_step
